@@ -51,6 +51,8 @@ fn frame_from_body(resp: &Resp) -> Result<WFrame, String> {
 pub struct AppendHow {
     /// send the body chunked with this chunk size instead of Content-Length
     pub chunked: Option<usize>,
+    /// write the request in two parts, pausing after this many body bytes have gone out
+    pub split_at: Option<usize>,
     /// send `context=` even for the zero context
     pub explicit_zero_ctx: bool,
 }
@@ -84,8 +86,31 @@ pub fn append_req(spec: &FrameSpec, content: Option<&[u8]>, how: &AppendHow) -> 
     }
 }
 
+/// One request on a fresh connection, written in two parts with a pause in between
+/// (so that the body reaches the server in more than one read).
+pub fn roundtrip_split(sock: &Path, req: &Req, body_split_at: usize, pause: Duration) -> Result<Resp, HttpErr> {
+    let bytes = req.to_bytes();
+    let body_len = match &req.body {
+        Body::Len(b) => b.len(),
+        _ => 0,
+    };
+    let cut = bytes.len() - body_len + body_split_at.min(body_len);
+    let mut c = Conn::open(sock)?;
+    c.send(&bytes[..cut])?;
+    std::thread::sleep(pause);
+    c.send(&bytes[cut..])?;
+    c.read_response(T)
+}
+
 pub fn append(sock: &Path, spec: &FrameSpec, content: Option<&[u8]>, how: &AppendHow) -> HOut<WFrame> {
-    classify(roundtrip(sock, &append_req(spec, content, how), T), |resp| {
+    let req = append_req(spec, content, how);
+    let res = match (how.split_at, how.chunked) {
+        (Some(at), None) if content.map(|c| c.len() > 1).unwrap_or(false) => {
+            roundtrip_split(sock, &req, at, Duration::from_millis(15))
+        }
+        _ => roundtrip(sock, &req, T),
+    };
+    classify(res, |resp| {
         if resp.status == 200 {
             match frame_from_body(&resp) {
                 Ok(f) => HOut::Ok(f),
